@@ -21,6 +21,8 @@ from harness.tlc import SPEC, run_tlc, write_cfg
 from harness.tracecheck import validate_traces
 
 SD = SPEC / "livedispatcher"
+# few GC threads: the JVMs are short-lived and the machine is shared (16 parallel-GC threads per JVM thrash under load)
+JENV = {"_JAVA_OPTIONS": "-XX:ParallelGCThreads=2"}
 DESIGN_REF = "DESIGN.md section 7 (C39), section 8"
 KF = {"seq": "LiveDispatcher:seq_num:global-seq_count",            # KF-C39-1
       "tally": "LiveDispatcher:num_events:counts-descriptors"}     # KF-C39-2
@@ -389,7 +391,7 @@ def run(ctx):
                 ("LiveDispatcher replay generation MaxEvents=4, default/byname keying", cfgp, 1)]
     out = ""
     for label, c, w in runs:
-        res = run_tlc("LiveDispatcher", c, spec_dir=SD, tag="C39", timeout=3000, workers=w)
+        res = run_tlc("LiveDispatcher", c, spec_dir=SD, tag="C39", timeout=3000, workers=w, env=JENV)
         ctx.add_tlc(res, label)
         if not res.ok:
             st = res.trace[-1][1] if res.trace else {}
@@ -400,7 +402,7 @@ def run(ctx):
     ctx.cov["exhaustive"] = True
     # the as-found design alone violates both clauses: TLC's refutations of KF-C39-1 / KF-C39-2 (the corresponding histories are
     # among those replayed below)
-    res = run_tlc("LiveDispatcher", "LiveDispatcher_asfound.cfg", spec_dir=SD, tag="C39a", timeout=600, extra=["-continue"], workers=1)
+    res = run_tlc("LiveDispatcher", "LiveDispatcher_asfound.cfg", spec_dir=SD, tag="C39a", timeout=600, extra=["-continue"], workers=1, env=JENV)
     ctx.add_tlc(res)
     refuted = set(re.findall(r"Invariant (\S+) is violated", res.stdout))
     if refuted != {"C39_SeqPerStream_Strict", "C39_NumEvents_Strict"}:
@@ -432,7 +434,7 @@ def run(ctx):
     tcfg = write_cfg(ctx.out / "trace.cfg", {"Streams": names - {""}, "Keys": names - {""}, "MaxEvents": 100000, "MaxFree": 100000, "MaxDesc": 100000, "MaxRuns": 100000,
                                              "Keyings": {"free"}, "NameBys": {"raw", "key"}, "Choice": "both"},
                      spec="TraceSpec", invariants=INVS, properties=PROPS, postcondition="TraceAccepted")
-    v = validate_traces("LiveDispatcherTrace", tcfg, traces, SD, ctx.out, tag="C39t")
+    v = validate_traces("LiveDispatcherTrace", tcfg, traces, SD, ctx.out, tag="C39t", env=JENV)
     ctx.add_tlc(v.res, "LiveDispatcherTrace")
     if v.invariant:
         i = v.inv_trace_index
